@@ -18,8 +18,8 @@ def D(bits, bn_bits, cc=True):
 
 # name, compiler, optimisation of .g, flags, kinds, tier
 CONFIGS = [
-    ('d8-affine',         'gcc',   '-O2', D(8, 128), 'gs', 'quick'),
-    ('d64-affine',        'gcc',   '-O2', D(64, 512), 'gs', 'quick'),
+    ('d8-affine',         'gcc',   '-O2', D(8, 128) + ['-DC09_HEAVY=1'], 'gs', 'quick'),
+    ('d64-affine',        'gcc',   '-O2', D(64, 512) + ['-DC09_HEAVY=1'], 'gs', 'quick'),
     ('d8-affine-nochk',   'gcc',   '-O2', D(8, 128) + NOCHK, 'gs', 'quick'),
     ('d64-proj-nochk',    'clang', '-O2', D(64, 512) + PROJ + NOCHK + ['-DEC_PF_TWIN_MULT_ALGO=3'], 'g', 'quick'),
     ('d8-proj-inter',     'clang', '-O2', D(8, 128, cc=False) + PROJ + ['-DEC_PF_TWIN_MULT_ALGO=3', '-DEC_PF_FXP_MULT_WIN_BITS=4'], 'g', 'thorough'),
